@@ -33,7 +33,7 @@ From TLV Require Import Base.Shape Base.PyList Base.Tensor Base.BigSum Model.Bas
   Proofs.TenalgProofsEinsumMttkrp Proofs.TenalgProofsEinsumKR Proofs.TenalgProofsEinsumOuter Proofs.TenalgProofsMultiGen Proofs.TenalgProofsMultiGen2 Proofs.TenalgProofsMemory
   Proofs.TenalgProofsTdotE Proofs.TenalgProofsTdotC Proofs.TenalgProofsEinsumMulti Proofs.TenalgProofsValidate Proofs.TenalgProofsTdotInner Proofs.TenalgProofsKRBcast Proofs.TenalgProofsNegMode Proofs.TenalgProofsNegMulti Proofs.TenalgProofsReject Proofs.TenalgProofsRepeat Proofs.TenalgProofsEq Proofs.TenalgProofsAnyModes Proofs.TenalgProofsW1
   Proofs.TenalgProofsSrc Proofs.TenalgProofsDefault Proofs.TenalgProofsMemW1 Proofs.TenalgProofsTdotRepeat
-  Model.TenalgRaw Proofs.TenalgProofsInnerRaw Proofs.TenalgProofsBcast.
+  Model.TenalgRaw Proofs.TenalgProofsInnerRaw Proofs.TenalgProofsBcast Proofs.TenalgProofsSrcInner.
 Import ListNotations.
 
 Definition ring_of {F} (Op : rops F) := ring_theory (r0 Op) (r1 Op) (radd Op) (rmul Op) (rsub Op) (ropp Op) (@eq F).
@@ -433,6 +433,18 @@ Theorem C02_inner_core_as_is_beyond_order_rejects_unless_wrapped : forall (F : T
   ndim A < n -> firstn n (shape B) <> skipn (2 * ndim A - n) (shape A) -> inner_as_is Op A B n = Err.
 Proof. exact @inner_as_is_beyond_rejects. Qed.
 Print Assumptions C02_inner_core_as_is_beyond_order_rejects_unless_wrapped.
+
+(* ... and when it is, the tensor returned is the documented routine's for n_modes' = min(n_modes - L, L), the number of modes the
+   wrapped-around slice kept: the malformed request is silently answered as a different, well-formed one *)
+Theorem C02_inner_core_as_is_beyond_order_value : forall (F : Type) (Op : rops F) (A B : tensor F) (n : nat),
+  ndim A < n -> shape B = skipn (2 * ndim A - n) (shape A) ->
+  inner_as_is Op A B n = inner Op A B (Some (ndim A - (2 * ndim A - n))).
+Proof. exact @inner_as_is_beyond_value. Qed.
+Print Assumptions C02_inner_core_as_is_beyond_order_value.
+Example C02_inner_core_as_is_beyond_order_value_nonvacuous :
+  let A := mk [2; 3] [0; 1; 2; 3; 4; 5]%Z in let B := mk [3] [1; 2; 3]%Z in
+  ndim A < 3 /\ shape B = skipn (2 * ndim A - 3) (shape A) /\ inner ZR A B (Some (ndim A - (2 * ndim A - 3))) = Ok (mk [2] [8; 26]%Z).
+Proof. exact inner_as_is_beyond_value_nonvacuous. Qed.
 Example C02_inner_as_is_nonvacuous :
   (let A := mk [2; 3] [0; 1; 2; 3; 4; 5]%Z in let B := mk [3; 2] [1; 2; 3; 4; 5; 6]%Z in
    1 <= ndim A /\ inner_as_is ZR A B 1 = Ok (mk [2; 2] [13; 16; 40; 52]%Z)) /\
@@ -1203,3 +1215,38 @@ Example C02_bcast_mul_nonvacuous :
     = apply_w ZR (Some (mk [2] [10; 100]%Z)) (mk [2; 2] [1; 2; 3; 4]%Z) /\
   apply_w ZR (Some (mk [2] [10; 100]%Z)) (mk [2; 2] [1; 2; 3; 4]%Z) = Ok (mk [2; 2] [10; 200; 30; 400]%Z).
 Proof. exact bcast_mul_examples. Qed.
+
+(* ---- round 9: vocabulary of the source ties of core outer / batched_outer / higher_order_moment / inner (harness/props/C02_coretie.py
+   regenerates the four bodies from the current source on every run and re-proves: outer_py = outer for all inputs; batched_outer_py =
+   batched_outer for tensors of order >= 1; higher_order_moment_py with the mean read as the sum = higher_order_moment_sum for order >= 1;
+   inner_py = inner_as_is for every n_modes [or = inner once n_modes is validated against the order]) *)
+(* for i, x in enumerate(l): (if i: acc = f(acc, x), which may raise; else: acc = x), two book-keeping locals refreshed from acc at the
+   end of every iteration, return acc: the fold of f from the first element *)
+Theorem C02_source_accumulating_loop : forall (A B1 B2 R : Type) (f : A -> A -> res A) (g1 : A -> B1) (g2 : A -> B2)
+    (step : option B1 * option B2 * option A -> nat * A -> res (option B1 * option B2 * option A))
+    (k : option B1 * option B2 * option A -> res R) (k' : A -> res R),
+  (forall st x, step st (0, x) = Ok (Some (g1 x), Some (g2 x), Some x)) ->
+  (forall a i x, step (Some (g1 a), Some (g2 a), Some a) (S i, x) = rbind (f a x) (fun a' => Ok (Some (g1 a'), Some (g2 a'), Some a'))) ->
+  (forall b1 b2 o, k (b1, b2, o) = match o with Some a => k' a | None => Err end) ->
+  forall l, rbind (fold_res step (py_enumerate l) (None, None, None)) k
+          = match l with [] => Err | a :: r => rbind (fold_res f r a) k' end.
+Proof. exact @fold_first_then_state. Qed.
+Print Assumptions C02_source_accumulating_loop.
+
+(* shape_t1[len(shape_t1) - n_modes:] and shape_t1[:len(shape_t1) - n_modes] under Python's slice rule (a negative bound counts from the
+   end, clipped at 0) cut the shape at inner_cut: the as-is model of core inner reads the source's slices correctly for EVERY n_modes *)
+Theorem C02_source_inner_slice_bound : forall (L n : nat), py_clip L (Z.of_nat L - Z.of_nat n) = inner_cut L n.
+Proof. exact py_clip_inner. Qed.
+Print Assumptions C02_source_inner_slice_bound.
+
+(* T.sum(tensor1 * tensor2) for operands of equal shape (literal broadcasting multiply, then the sum of all entries) is the model's
+   traditional inner product *)
+Theorem C02_source_sum_of_product : forall (F : Type) (Op : rops F) (A B : tensor F), shape A = shape B ->
+  rbind (bcast_mul Op A B) (fun P => Ok (np_sum_all Op P))
+  = Ok (mk [] [ssum Op (shape A) (fun idx => rmul Op (get (r0 Op) A idx) (get (r0 Op) B idx))]).
+Proof. exact @sum_of_product_same_shape. Qed.
+Print Assumptions C02_source_sum_of_product.
+Example C02_source_inner_slice_bound_nonvacuous :
+  py_clip 2 (Z.of_nat 2 - Z.of_nat 3) = 1 /\ inner_cut 2 3 = 1 /\ py_slice_from [2; 3] (-1)%Z = [3] /\ py_slice_to [2; 3] (-1)%Z = [2] /\
+  rbind (bcast_mul ZR (mk [2] [1; 2]%Z) (mk [2] [3; 4]%Z)) (fun P => Ok (np_sum_all ZR P)) = Ok (mk [] [11%Z]).
+Proof. repeat split; vm_compute; reflexivity. Qed.
